@@ -407,9 +407,9 @@ fn pg<S: PageSize>(a: u64) -> Page<S> {
     unsafe { Page::from_start_address_unchecked(vaddr(a)) }
 }
 
-fn invlpgb_case(out: &mut Out, s: u8, start: u64, end: u64, count_max: u16, pcid: Option<u16>, asid: Option<u16>, global: bool, fin: bool, nested: bool, nasid: u32) {
+fn invlpgb_run(s: u8, start: u64, end: u64, count_max: u16, pcid: Option<u16>, asid: Option<u16>, global: bool, fin: bool, nested: bool, nasid: u32) -> bool {
     let inv = Invlpgb::new_verif(count_max, nested, nasid);
-    let r = catch(|| {
+    catch(|| {
         macro_rules! go {
             ($S:ty) => {{
                 let rg = Page::<$S>::range(pg(start), pg(end));
@@ -437,7 +437,38 @@ fn invlpgb_case(out: &mut Out, s: u8, start: u64, end: u64, count_max: u16, pcid
         } else {
             go!(Size2MiB)
         }
-    });
+    })
+    .is_some()
+}
+
+/// `forked`: run the builder in a child with a watchdog, so that a flush that never terminates
+/// (or emits an unbounded number of requests) is recorded as k = "hang" instead of hanging the
+/// harness.  Used for very long ranges.
+fn invlpgb_case(out: &mut Out, s: u8, start: u64, end: u64, count_max: u16, pcid: Option<u16>, asid: Option<u16>, global: bool, fin: bool, nested: bool, nasid: u32, forked: bool) {
+    let (k, ins) = if !forked {
+        let ok = invlpgb_run(s, start, end, count_max, pcid, asid, global, fin, nested, nasid);
+        (if ok { "ok" } else { "panic" }, instrs())
+    } else {
+        cpu::drain();
+        let (recs, st) = crate::idt::in_child_mode(crate::trap::EMU, || {
+            unsafe { libc::alarm(6) };
+            let ok = invlpgb_run(s, start, end, count_max, pcid, asid, global, fin, nested, nasid);
+            let over = cpu::NLOG.load(Ordering::SeqCst) > cpu::MAXLOG;
+            for x in cpu::drain() {
+                crate::idt::send(&[7, x.m, x.a, x.b, x.c, x.d, x.rip, 0, 0, 0]);
+            }
+            crate::idt::send(&[8, ok as u64, over as u64, 0, 0, 0, 0, 0, 0, 0]);
+        });
+        let ins: Vec<cpu::Instr> = recs.iter().filter(|r| r[0] == 7).map(|r| cpu::Instr { m: r[1], a: r[2], b: r[3], c: r[4], d: r[5], rip: r[6] }).collect();
+        let k = match recs.iter().find(|r| r[0] == 8) {
+            Some(r) if r[2] != 0 => "runaway",
+            Some(r) if r[1] != 0 => "ok",
+            Some(_) => "panic",
+            None if libc::WIFSIGNALED(st) && libc::WTERMSIG(st) == libc::SIGALRM => "hang",
+            None => "crash",
+        };
+        (k, cpu::instrs_json(&ins))
+    };
     out.emit(
         Ev::new("invlpgb_flush")
             .n("s", s as i64)
@@ -449,8 +480,8 @@ fn invlpgb_case(out: &mut Out, s: u8, start: u64, end: u64, count_max: u16, pcid
             .n("global", global as i64)
             .n("final", fin as i64)
             .n("nested", nested as i64)
-            .str("k", if r.is_some() { "ok" } else { "panic" })
-            .raw("instrs", &instrs()),
+            .str("k", k)
+            .raw("instrs", &ins),
     );
 }
 
@@ -571,7 +602,22 @@ pub fn run_flush(out: &mut Out, seed: u64, n: u64) {
         // builder has to split them
         let pcid = if r.chance(1, 2) { Some(r.below(4096) as u16) } else { None };
         let asid = if r.chance(1, 2) { Some(r.below(16) as u16) } else { None };
-        invlpgb_case(out, s, start, end, cm, pcid, asid, r.chance(1, 2), r.chance(1, 2), r.chance(1, 3), 16);
+        invlpgb_case(out, s, start, end, cm, pcid, asid, r.chance(1, 2), r.chance(1, 2), r.chance(1, 3), 16, false);
         cases += 1;
+    }
+    // very long ranges (more pages than one request can ever carry), run under a watchdog
+    let big: [(u8, u16, u64); 10] = [(0, 65535, 65536), (0, 65535, 65537), (0, 65535, 200_000), (1, 65535, 70_000), (0, 65534, 65536), (0, 4096, 50_000), (0, 255, 70_000), (1, 65535, 65535), (0, 32767, 65536 * 2), (0, 65535, 65536 * 3 + 5)];
+    for (i, &(s, cm, len)) in big.iter().enumerate() {
+        let size = 1u64 << (12 + 9 * s as u64);
+        let start = match i % 3 {
+            0 => 0x1000_0000_0000u64 & !(size - 1),
+            1 => 0xffff_8000_0000_0000,
+            _ => 0x0000_8000_0000_0000u64.wrapping_sub((len / 2) * size), // spans the gap
+        };
+        let mut end = start.wrapping_add(len * size);
+        if start < 0x0000_8000_0000_0000 && end >= 0x0000_8000_0000_0000 {
+            end = end - 0x0000_8000_0000_0000 + 0xffff_8000_0000_0000;
+        }
+        invlpgb_case(out, s, start, end, cm, None, if i % 2 == 0 { Some(3) } else { None }, false, i % 4 == 1, false, 16, true);
     }
 }
